@@ -10,7 +10,7 @@ CHECKS = {
         technique=DST + "seeded scheduler + simulated stream transport, per-connection sequential reference model",
         ref="DESIGN.md §4 C01"),
     "C04": dict(
-        text="Seeded generation of method strings x registered-name sets on live multi-call connections; routing function written from the statement, exactly-once dispatch log, one reply per call. The schedule dimension adds little here; strength comes from the independent model with the real service in the loop.",
+        text="Seeded generation of method strings x registered-name sets on live multi-call connections; routing function written from the statement, exactly-once dispatch log, one reply per call. The schedule dimension adds little here; strength comes from the independent model with the real service in the loop. One run in twelve is a registration history (C13's linearizability oracle) whose clients make calls while the set of registered names changes between serving rounds: routing follows the registrations.",
         technique=DST + "seeded workload over the simulated transport, routing reference model + dispatch-log oracle",
         ref="DESIGN.md §4 C04"),
     "C10": dict(
@@ -18,11 +18,11 @@ CHECKS = {
         technique=DST + "peer abort/close at arbitrary byte offsets, back-pressure, quiescence-based liveness oracle",
         ref="DESIGN.md §4 C10"),
     "C14": dict(
-        text="Seeded histories over {serve round (Listen | Bind+DoListen), client connect/call/close/abort, handler failure, context cancel, Shutdown, second Bind/Listen, re-serve on the same address}; Shutdown placed by observed accept-loop phase plus statement-level preemption inside Shutdown, the loop and teardown. Oracles: every round ends once Shutdown was issued and clients are gone; nil return when Shutdown found the loop blocked in Accept; nothing dialled after Shutdown returned is accepted by that round; no return before accepted connections ended; listener closed at return; re-bind succeeds; second bind while serving refused.",
+        text="Seeded histories over {serve round (Listen | Bind+DoListen), client connect/call/close/abort, handler failure, context cancel, Shutdown, second Bind/Listen, re-serve on the same address}; Shutdown placed by observed accept-loop phase plus statement-level preemption inside Shutdown, the loop and teardown. Oracles: every round ends once Shutdown was issued and clients are gone; nil return when Shutdown found the loop blocked in Accept; nothing dialled after Shutdown returned is accepted by that round; no return before accepted connections ended; listener closed at return; re-bind succeeds; second bind while serving refused. Variants: serving contexts that are cancelled or expire (standard and simulator contexts), Bind given a context of its own, rounds that never get as far as serving (address held by a foreign listener; Bind + Shutdown without a serving call), handlers that call Shutdown themselves; a run that spins without progress is a livelock.",
         technique=DST + "seeded scheduler preempting between statements of the accept loop / Shutdown / teardown, life-cycle history oracle with bounded liveness at quiescence",
         ref="DESIGN.md §4 C14"),
     "C15": dict(
-        text="Same histories with idle timeouts from 1 us to 24 h on the simulated clock (and timeout 0 as control). Oracles are exact because running code takes no simulated time: timeout return not before last-new-connection + timeout, not after last-connection-end + timeout, never while an obliged client still has to be served, always eventually when idle; never a self-stop without timeout; listener closed at the timeout return, later dials refused, re-serve works.",
+        text="Same histories with idle timeouts from 1 us to 24 h on the simulated clock (and timeout 0 as control). Oracles are exact because running code takes no simulated time: timeout return not before last-new-connection + timeout, not after last-connection-end + timeout, never while an obliged client still has to be served, always eventually when idle; never a self-stop without timeout; listener closed at the timeout return, later dials refused, re-serve works. One run in 24: the serving context ends under open connections and the idle timeout then stops the service.",
         technique=DST + "simulated clock with accept-deadline expiries as kernel events, ties decided by the seeded scheduler, exact timing oracle",
         ref="DESIGN.md §4 C15"),
     "C16": dict(
@@ -36,7 +36,7 @@ CHECKS = {
         note="Trusted: the simulator's transport model, testing/synctest. The real-transport leg trusts wall-clock bounds that are three orders of magnitude wider than the expected latency (5 s late, 20 s stuck) and re-executes a violating history twice before reporting it.",
         ref="DESIGN.md §4 C17"),
     "C18": dict(
-        text="A peer writes NUL-terminated frames followed by raw payload, cut so that payload shares a segment with the preceding frame; the consumer mixes ReadBytes(0) and Read of 1..8192 bytes in generated order, client side through Upgrade's object and service side through Call.Conn. Oracle: concatenation of everything returned = the exact prefix of the stream; a satisfiable read never stays blocked at quiescence.",
+        text="A peer writes NUL-terminated frames followed by raw payload, cut so that payload shares a segment with the preceding frame; the consumer mixes ReadBytes(0) and Read of 1..8192 bytes in generated order, client side through Upgrade's object and service side through Call.Conn. Oracle: concatenation of everything returned = the exact prefix of the stream; a satisfiable read never stays blocked at quiescence; when the peer closed in an orderly way and the consumer read to the end, what was returned (including bytes returned together with EOF) is the whole stream. Upgrade replies with either continues flag, oneway upgrade calls, Upgrade under a context that ends right after it.",
         technique=DST + "adversarial segmentation / coalescing / short reads of the simulated transport, byte-exact stream oracle",
         ref="DESIGN.md §4 C18"),
     "C19": dict(
@@ -49,11 +49,11 @@ CHECKS = {
         technique=DST + "wire tap of the simulated transport + adversarial segmentation, framing oracle on both directions",
         ref="DESIGN.md §4 C02"),
     "C03": dict(
-        text="Generated JSON objects (integers beyond 2^53, -0, exponents, long fractions, empty objects, null members, unicode keys, deep and large values) as call and reply parameters, more-sequences of 0..20 replies, Send+receive and Call, over the simulated stream (standing for unix / abstract / tcp, which differ only in the kernel object behind net.Conn) and the real PipeCon with an in-simulation bridge relay. Oracle: handler-side raw parameters and client-side received raw parameters are JSON-equal to what was passed, numbers compared as lexemes; continues set on all replies but the last. The schedule dimension adds little; strength is the independent model with both real endpoints in the loop.",
+        text="Generated JSON objects (integers beyond 2^53, -0, exponents, long fractions, empty objects, null members, unicode keys, deep and large values) as call and reply parameters, more-sequences of 0..20 replies, Send+receive and Call, over the simulated stream (standing for unix / abstract / tcp, which differ only in the kernel object behind net.Conn) and the real PipeCon with an in-simulation bridge relay. Oracle: handler-side raw parameters and client-side received raw parameters are JSON-equal to what was passed, numbers compared as lexemes; continues set on all replies but the last. The schedule dimension adds little; strength is the independent model with both real endpoints in the loop. Variants: Shutdown in the middle of the traffic (also issued by a handler), an idle-timeout service with connections open over many expiries, pipelined calls, a context of its own for Send, `{}` as parameters, lockstep more-sequences (a reply is on the wire when Reply returns). A second leg, NOT simulated, runs round trips over the four real transports.",
         technique=DST + "both real endpoints over the simulated transport, lexeme-exact JSON equality oracle",
         ref="DESIGN.md §4 C03"),
     "C12": dict(
-        text="Handler error names from a grammar (dots anywhere, empty parts, unicode, org.varlink.service.X, .X.Y, near misses) with generated parameters, and the four built-in helpers with arbitrary strings, both ends real. Oracle: sendable iff non-empty interface part that is not exactly org.varlink.service; sendable -> client gets *varlink.Error with exactly that name and JSON-equal parameters; otherwise the handler got an error and nothing was written; built-ins arrive as their typed errors carrying the value the service put in.",
+        text="Handler error names from a grammar (dots anywhere, empty parts, unicode, org.varlink.service.X, .X.Y, near misses) with generated parameters, and the four built-in helpers with arbitrary strings, both ends real. Oracle: sendable iff non-empty interface part that is not exactly org.varlink.service; sendable -> client gets *varlink.Error with exactly that name and JSON-equal parameters; otherwise the handler got an error and nothing was written; built-ins arrive as their typed errors carrying the value the service put in. Error values are asked again at the end of the run what they say; typed out-parameters whose members collide with the error's parameters; own errors named like the standard ones.",
         technique=DST + "both real endpoints over the simulated transport, error-namespace reference predicate",
         ref="DESIGN.md §4 C12"),
     "C11": dict(
@@ -61,7 +61,7 @@ CHECKS = {
         technique=DST + "scripted hostile peer with abort at arbitrary byte offsets, reference decoder oracle over the delivered bytes",
         ref="DESIGN.md §4 C11"),
     "C13": dict(
-        text="2-5 concurrent actors take one service through register / duplicate register / serve (Listen | Bind+DoListen) / register while serving / Shutdown / register again while client actors call the GetInfo, GetInterfaceDescription and Resolver helpers; identity strings, names and descriptions arbitrary valid UTF-8. Completed operations are stamped with kernel sequence numbers at invoke and return (serving calls split into Start [invoke, first Accept] and Stop [Shutdown invoke, return]; unfinished ones are pending) and checked with porcupine against a sequential model {identity, names in order, descriptions, serving}: Register -> ok | refused and a refused Register changes nothing; GetInfo / GetInterfaceDescription return the state at their linearisation point. Resolver helper results are compared field for field with what the test resolver interface answered.",
+        text="2-5 concurrent actors take one service through register / duplicate register / serve (Listen | Bind+DoListen) / register while serving / Shutdown / register again while client actors call the GetInfo, GetInterfaceDescription and Resolver helpers; identity strings, names and descriptions arbitrary valid UTF-8. Completed operations are stamped with kernel sequence numbers at invoke and return (serving calls split into Start [invoke, first Accept] and Stop [Shutdown invoke, return]; unfinished ones are pending) and checked with porcupine against a sequential model {identity, names in order, descriptions, serving}: Register -> ok | refused and a refused Register changes nothing; GetInfo / GetInterfaceDescription return the state at their linearisation point. Resolver helper results are compared field for field with what the test resolver interface answered. Clients also make calls (dispatched exactly if the interface is registered at the linearisation point), send garbage, and re-use destination variables; descriptions include the empty text and CRLF.",
         technique=DST + "recorded concurrent history checked for linearizability (porcupine) against a sequential reference model",
         note="Trusted: porcupine v1.3.0, the simulated transport, testing/synctest. Histories are kept below 40 operations so the check never times out (Unknown is never reported).",
         ref="DESIGN.md §4 C13"),
